@@ -26,23 +26,25 @@ class BpPart(LIFE.IoPart):
         fields = case.split(";")
         ops = [o for o in (LIFE.nums(f) for f in fields[1:]) if o]
         steps = self.parse(obs)
-        fin, pending, _tm, codes, _w = steps[-1]
-        if fin != 0 or any(10 <= c < 40 for c in codes):
-            return "1"
-        wr = [c for c in codes if c in (40, 50)]
-        if not wr or wr[-1] != 40:
-            return "1"
-        accept = [op[1] for op in ops if op[0] == 12]
-        ready = [op[1] for op in ops if op[0] == 8]
-        if (accept and accept[-1] != 1) or (ready and ready[-1] != 0):
-            return "1"
-        if any(op[0] in (3, 4, 6, 7, 9, 10) for op in ops):
-            return "1"              # closes, timer expiry, control readiness: other ways for the connection to end
-        # the last operation that removed an obstacle must have been followed by at least one more quiet step
-        last_change = max([i for i, op in enumerate(ops) if op[0] in (8, 12, 2, 1, 13)] or [0])
-        if last_change >= len(ops):
-            return "1"
-        return "0,133,%d" % (len(ops) - 1)
+        # judged after every step (a later, unrelated operation may end the connection)
+        for i in range(len(ops)):
+            if i >= len(steps):
+                break
+            fin, pending, _tm, codes, _w = steps[i]
+            pre = ops[:i + 1]
+            if fin != 0 or any(10 <= c < 40 for c in codes):
+                break
+            if any(op[0] in (3, 4, 6, 7, 9, 10) or (op[0] == 1 and 255 in op[1:]) for op in pre):
+                break               # closes, timer expiry, control readiness, undecodable bytes: other endings
+            wr = [c for c in codes if c in (40, 50)]
+            if not wr or wr[-1] != 40:
+                continue
+            accept = [op[1] for op in pre if op[0] == 12]
+            ready = [op[1] for op in pre if op[0] == 8]
+            if (accept and accept[-1] != 1) or (ready and ready[-1] != 0):
+                continue
+            return "0,133,%d" % i
+        return "1"
 
 
 def parts(tier, rng):
